@@ -5,5 +5,6 @@ CONSTANTS
   StaticLens = {0, 1, 3, 21, 22, 23}
   SkipValidate = {"rkyv_access"}
   OrdByForm = FALSE
+  HeapLenFirst = FALSE
 INVARIANTS ExistsIffValid CompareByContent
 CHECK_DEADLOCK FALSE
